@@ -38,9 +38,9 @@ CHECKS = {
                 text="Sequential: every sequence (depth 3 quick / 4 thorough directly on bep44.Wrapper with a 51-letter alphabet; depth 2 / 3 over the wire on the real Server with a fresh token per put) of put(seq in {-1,0,1,2,3,MaxInt64}, cas in {0,1,2,9}, value a|b), get (over the wire also naming seq 0/1/2/MaxInt64) and clock steps to 1 ns before / past the expiry, compared after every step with a reference model: 302 for a lower seq or the same seq with another value, 301 unless cas equals the stored seq, an accepted put is what gets return, nothing is served after the expiry, v is sent to a get naming a seq only if the stored seq is newer, and the stored seq never decreases at any Store.Put. Concurrent: 8 scenarios of 2-3 concurrent Wrapper.Put/Get calls (two/three puts, same seq, cas race, empty slot, put vs get, expired item vs put) under the controlled scheduler with points at Store.Get/Put/Del and the wrapper mutex; all interleavings (unbounded), each checked for monotone stored seq and for linearizability against the same model by brute force over the call orders consistent with real time, including the final state later gets see.",
                 note="in the corner the statement leaves open (same seq, same value, mismatching cas) both accept and 301 are legal; an expired item that was not yet deleted may or may not still block a lower-seq put",
                 ref="DESIGN.md 5/C13"),
-    "C14": dict(level="fault_enumeration", technique="exhaustive enumeration of a fault/timing placement grid on the real dht.Server in a testing/synctest bubble (virtual clock, fake socket with scripted write errors, simulated peers)",
-                text="Grid (resend delay 1 s, 1 ns resolution): one Query with NumTries 1..3 x reply instant x ctx-cancel instant x Server.Close instant, each in {never, right after the first send, d/2, k*d - 1 ns, k*d + 1 ns}, x scripted socket write error on send i, x a socket write that is stuck for half an interval with the reply, the cancellation or Close falling inside that window, x rate-limit options {default, NoWaitFirst, WaitOnRetries, NotAny} with a full or an empty limiter; every API call (Ping, FindNode, GetPeers, Get, Put) and every traversal (Bootstrap, BootstrapContext, AnnounceTraversal with/without announcing and with Close / StopTraversing, getput.Get mutable and immutable, getput.Put) under 7 start conditions (empty starting nodes, nil resolver, resolver error, one silent node, one answering node, 3-node network with a silent member, two nodes one silent) x stop instant {never, 0, 0.5 s, 2.5 s}; failing starts are repeated 3 times on one server. Oracle: the call returns; with the cause whose decisive instant comes first (reply / ctx / send error / closed / time-out after the last resend interval; same-instant ties accept either); at most NumTries datagrams and none after the return; in the first quiescent state after the return no pending transaction (Stats and dispatcher) and no goroutine with a frame in the module except the serve loop; after Close a new query fails and writes nothing and no goroutine remains.",
-                note="BootstrapContext returns at once on ctx cancellation while its context-less find_node queries run to their own time-out: for that case cleanup is checked at the horizon instead of at the return; goroutines stranded by earlier executions in the same process are excluded by bubble id",
+    "C14": dict(level="fault_enumeration", technique="exhaustive enumeration of a fault/timing placement grid on the real dht.Server in a testing/synctest bubble (virtual clock, fake socket with scripted write errors and stuck writes, simulated peers); plus stateless DFS over scheduler choices at the synchronisation points of the real Server.Query path (root package built through the import-rewriting overlay: s.mu Lock/RLock, SetOnce.Set, socket writes and budgeted clock ticks are scheduling points) with preemption bounding and state-key pruning",
+                text="Grid (resend delay 1 s, 1 ns resolution): one Query with NumTries 1..3 x reply instant x ctx-cancel instant x Server.Close instant, each in {never, right after the first send, d/2, k*d - 1 ns, k*d + 1 ns}, x scripted socket write error on send i, x a socket write that is stuck for half an interval with the reply, the cancellation or Close falling inside that window, x rate-limit options {default, NoWaitFirst, WaitOnRetries, NotAny} with a full or an empty limiter; every API call (Ping, FindNode, GetPeers, Get, Put) and every traversal (Bootstrap, BootstrapContext, AnnounceTraversal with/without announcing and with Close / StopTraversing, getput.Get mutable and immutable, getput.Put) under 7 start conditions (empty starting nodes, nil resolver, resolver error, one silent node, one answering node, 3-node network with a silent member, two nodes one silent) x stop instant {never, 0, 0.5 s, 2.5 s}; failing starts are repeated 3 times on one server. Oracle: the call returns; with the cause whose decisive instant comes first (reply / ctx / send error / closed / time-out after the last resend interval; same-instant ties accept either); at most NumTries datagrams and none after the return; in the first quiescent state after the return no pending transaction (Stats and dispatcher) and no goroutine with a frame in the module except the serve loop; after Close a new query fails and writes nothing and no goroutine remains. Sync-level tier: 9 scenarios of one Query (NumTries 1-2) racing its reply, a reply from another port, the caller's cancellation, Server.Close, a scripted write error and the resend / time-out timers; every interleaving at lock / socket-write / timer granularity with <= 2 preemptions (quick) or unbounded (thorough), same oracle plus: a reply result only if the reply was delivered from the queried address, a context / closed / send error only if that event happened.",
+                note="sync tier: cancellation is schedulable only after the first send attempt, because the sender's first select races a zero-delay timer against ctx.Done() and the Go runtime owns that choice; BootstrapContext returns at once on ctx cancellation while its context-less find_node queries run to their own time-out: for that case cleanup is checked at the horizon instead of at the return; goroutines stranded by earlier executions in the same process are excluded by bubble id",
                 ref="DESIGN.md 5/C14"),
     "C16": dict(level="model_checking", technique=E1 + "; letters are the pending outbound queries of the real AnnounceTraversal (answer / let time out) plus Close / StopTraversing at every position",
                 text="Real Server.AnnounceTraversal over simulated networks of 3-4 peers (peer i lists the later peers) with per-peer get_peers behaviour in {token+nodes, token+values, no token, empty token, error reply, silent, answers under another ID}: all 343 assignments for 3 peers plus designed 3- and 4-peer networks x options {port, implied_port, scrape+port, no announce} x consumer {reads to the end, stops after 0/1 deliveries then closes and drains, stops for good and closes} x {no stop, Close, StopTraversing at every position} x 1-2 starting nodes. DFS with canonical-state dedup over every order of answering / timing out the pending get_peers and announce_peer queries. Oracle in every state: announce_peer only when enabled, only to nodes that answered get_peers with a token in this traversal, at most one each, carrying exactly that node's token (empty string included), the announced info_hash and the configured port / implied_port; Peers never delivers more than was received. At every terminal state: each closest-set member got exactly one announce_peer (unless Close intervened), every response received while the consumer was reading was delivered once with the responder's address and claimed ID, Peers is closed and Finished() readable.",
